@@ -90,12 +90,16 @@ class Triple(object):
             return list(k.subkeys.values())[0], k
         raise ValueError(self.kind)
 
-    def pg_verdict(self, cert=None):
-        """('truthy'|'falsy'|'raised', detail).  Any exception counts as 'raised' (never a truthy verification)."""
+    def pg_verdict(self, cert=None, copied=False):
+        """('truthy'|'falsy'|'raised', detail).  Any exception counts as 'raised' (never a truthy verification).
+        copied: the signature object is copied first (copy.copy), as happens inside derived public keys and copied keys/messages."""
         keep = []
         try:
             v = self.pg_verifier(cert)
             s = self.pg_sig()
+            if copied:
+                import copy
+                s = copy.copy(s)
             subj = self.pg_subject()
             if isinstance(subj, tuple):
                 keep.append(subj[1])
